@@ -92,6 +92,49 @@ impl Workload for Docs {
     }
 }
 
+/// Resources whose synthesised operation ids come close to each other: paths that differ by a character the label
+/// scheme keeps (`%`, `$`, `@`, `.`, `_`, `~`) must get different ids; paths the scheme maps to one label (`/a-b` vs
+/// `/a/b`, case variants, `{x}` vs `x`) are the open finding and are reported as such.
+pub struct NearIds {
+    pub n: u64,
+}
+
+fn near_ids_program(rng: &mut crate::util::Rng) -> Sources {
+    const URIS: [&str; 22] = [
+        "/tags/c%23", "/tags/c23", "/people/{ '@id str }", "/people/id", "/{ '$version str }/status", "/version/{ 'status int }", "/a-b", "/a/b",
+        "/A", "/a", "/x/{ 'id str }", "/x/id", "/%41", "/41", "/a.b", "/a_b", "/~u", "/u", "/{ '$v num }", "/v", "/people/{ 'id str }", "/tags/c.23",
+    ];
+    let mut idx: Vec<usize> = (0..URIS.len()).collect();
+    rng.shuffle(&mut idx);
+    let k = rng.range(2, 7);
+    let m = *rng.pick(&["get", "put", "delete"]);
+    let mut text = String::new();
+    for &u in idx.iter().take(k) {
+        text.push_str(&format!("res {} on {m} -> <{{}}>;\n", URIS[u]));
+    }
+    Sources::single(&text)
+}
+
+impl Workload for NearIds {
+    fn len(&self) -> u64 {
+        self.n
+    }
+    fn case_json(&self, seed: u64, idx: u64) -> Value {
+        let mut rng = crate::util::Rng::for_case(seed, "c03ids", idx);
+        json!({"sources": near_ids_program(&mut rng).to_json(), "origin": "near-ids"})
+    }
+    fn run(&self, seed: u64, idx: u64, st: &mut Stats) -> Vec<Violation> {
+        let mut rng = crate::util::Rng::for_case(seed, "c03ids", idx);
+        run_sources(&near_ids_program(&mut rng), "near-ids", st)
+    }
+    fn run_json(&self, case: &Value, st: &mut Stats) -> Vec<Violation> {
+        run_sources(&Sources::from_json(&case["sources"]), "near-ids", st)
+    }
+    fn chunk(&self) -> u64 {
+        200
+    }
+}
+
 /// The document as the command-line compiler writes it: a series of accepted programs, largest first, is
 /// compiled into the same target path of one workspace (a target is normally regenerated, not created); after
 /// each run the target's text must parse, be valid, and be the document the library builds for that program.
@@ -197,6 +240,10 @@ pub fn run(ctx: &Ctx) -> i32 {
         n: if ctx.quick() { 150 } else { 3000 },
     };
     acc.pool(&ct, "c03cli", false);
+    let ni = NearIds {
+        n: if ctx.quick() { 3000 } else { 100_000 },
+    };
+    acc.pool(&ni, "c03ids", false);
     // Canary: a dangling $ref and a missing path parameter must be flagged.
     let bad = json!({"paths": {"/a/{x}": {"get": {"responses": {"700": {"description": ""}}, "operationId": "get-a-x"},
         "parameters": []}}, "components": {"schemas": {"a": {"$ref": "#/components/schemas/missing"}}}});
